@@ -6,6 +6,7 @@ builds one real SoundEvent per identifier, lays them out by "id" (twin positions
 passes a comparison function that answers by looking the (unordered) identifier pair up in the relation and logs its
 arguments, and records the returned sequences and the call log as identifiers.
 """
+import sys, inspect
 import functools
 import uuid
 import numpy as np
@@ -167,10 +168,15 @@ def _run(case, variant):
         return answer(bool(similar) and looks)
 
     comparison_fn = _guise(case.get("guise", "function"), compare)
+    old_limit = sys.getrecursionlimit()
     try:
+        if case.get("deep"):
+            sys.setrecursionlimit(len(inspect.stack(0)) + 80)
         result = group_sound_events(events, comparison_fn)
     except Exception as ex:
         return {"raised": type(ex).__name__, "seqs": [], "calls": calls, "ident": identity}
+    finally:
+        sys.setrecursionlimit(old_limit)
     seqs = []
     for s in result:
         if not isinstance(s, data.Sequence):
@@ -264,6 +270,16 @@ def _large_cases(rng, tier):
             edges.append((b - 1, b))                                 # two high neighbours
             edges.append((rng.randrange(1, 100), b))
         yield _graph(n, edges)
+    # one chain through 120 events listed in chain order (and, thorough, in reverse), grouped under a recursion limit
+    # 80 frames above the caller: a walk that descends one frame per link of the chain dies here as it would at ~1000
+    # links under the default limit; an iterative or breadth-bounded walk does not notice (the unchanged code needs < 45 frames)
+    for rev in ([False] if tier == "quick" else [False, True]):
+        n = 120
+        g = _graph(n, [(a, a + 1) for a in range(1, n)])
+        if rev:
+            g["id"] = g["id"][::-1]
+        g["deep"] = True
+        yield g
 
 
 def nontrivial(o):
